@@ -268,7 +268,9 @@ def specs_cls(c, th):
 
 def specs_seq(c, th):
   masks = [[], [0], [0, 2]] if c > 2 else [[], [0], [0, 1]]
-  lms = [None, [0.0] * (c - 1) + ['-inf'], ['-inf'] + [0.0] * (c - 1)]
+  # masks with -inf entries, with a large finite negative entry ("-1e9 instead of -inf") and finite per-class biases
+  lms = [None, [0.0] * (c - 1) + ['-inf'], ['-inf'] + [0.0] * (c - 1), [0.0] * (c - 1) + [-1e9],
+         [1.0] + [0.0] * (c - 2) + [-1.0]]
   out = []
   for mv in masks:
     for pp in (False, True):
@@ -277,7 +279,7 @@ def specs_seq(c, th):
         out.append({'name': 'SequenceTokenAccuracy', 'masked_target_values': mv, 'logits_mask': lm,
                     'per_position': pp})
         for k in ((-1, 0, 1, 2, c + 1) if th else (-1, 1, 2)):
-          if not th and (lm is not None and lm[0] == '-inf') and k != 2:
+          if not th and (lm is not None and lm[0] != 0.0) and k != 2:
             continue
           out.append({'name': 'SequenceTokenTopKAccuracy', 'k': k, 'masked_target_values': mv, 'logits_mask': lm,
                       'per_position': pp})
@@ -321,7 +323,7 @@ def plan(ctx):
       cases.append({'spec': spec, 'family': 'seq', 'C': c, 'L': l, 'stride': stride})
   ctx.pmap('grid', cases, chunk=4)
   ctx.run('identities', [{'C': 2}, {'C': 3}, {'C': 4}])
-  lm3 = [None, [0.0, 0.0, '-inf'], ['-inf', 0.0, 0.0], [0.0, '-inf', 0.0]]
+  lm3 = [None, [0.0, 0.0, '-inf'], ['-inf', 0.0, 0.0], [0.0, '-inf', 0.0], [0.0, 0.0, -1e9], [1.0, 0.0, -1.0]]
   groups = [
       ('seq', 3, 2, [{'name': 'SequenceTokenAccuracy', 'logits_mask': lm} for lm in lm3]),
       ('seq', 3, 2, [{'name': 'SequenceTokenTopKAccuracy', 'k': 2, 'logits_mask': lm} for lm in lm3]),
